@@ -6,6 +6,7 @@
 //! The harness only measures and converts units; every law that is checked lives in TLA+.
 
 mod areas;
+mod freq;
 mod geom;
 mod hist;
 mod ljcheck;
@@ -86,7 +87,11 @@ fn cmd_opt(m: &HashMap<String, String>) {
                 "edited" => suites::edited_suite(&mut rng, 7 * scale / chunks.max(1) * 2, 100, false),
                 "saveload" => suites::saveload_suite(&mut rng, 14 * scale / chunks.max(1) * 2),
                 "special" => suites::special_suite(&mut rng, 20 * scale / chunks.max(1) * 2),
-                "oor" => suites::edited_suite(&mut rng, 7 * scale / chunks.max(1) * 2, 100, true),
+                "oor" => {
+                    let mut r = suites::edited_suite(&mut rng, 7 * scale / chunks.max(1) * 2, 100, true);
+                    r.extend(suites::oor_lj_suite(&mut rng, 14 * scale / chunks.max(1) * 2));
+                    r
+                }
                 _ => vec![],
             };
             if runs.is_empty() {
@@ -133,6 +138,16 @@ fn main() {
         ),
         "cli-inspect" => pipeline::cli_inspect(&m),
         "pool-runs" => pipeline::pool_runs(
+            m.get("out").expect("--out"),
+            m.get("tier").map(|t| t == "thorough").unwrap_or(false),
+            m.get("seed").and_then(|s| s.parse().ok()).unwrap_or(1),
+        ),
+        "pairs-obs" => geom::pairs_obs(
+            m.get("out").expect("--out"),
+            m.get("tier").map(|t| t == "thorough").unwrap_or(false),
+            m.get("seed").and_then(|s| s.parse().ok()).unwrap_or(1),
+        ),
+        "frequency" => freq::frequency(
             m.get("out").expect("--out"),
             m.get("tier").map(|t| t == "thorough").unwrap_or(false),
             m.get("seed").and_then(|s| s.parse().ok()).unwrap_or(1),
